@@ -24,11 +24,17 @@ CHECKS = {
    design_ref="DESIGN.md section 4 C12",
    note="Trusted: the narrow template extractor (fails closed), the composition lemmas stated in the evidence (keys are concatenations of the same pieces on both sides), solvers; bounds: <= 1 argument per selection in the injectivity pairs (quick), names <= 4 chars, strings <= 2 characters, objects <= 1 entry; Float/List values, integers beyond 2^53 and string escaping in the artifact are outside the claim.",
    technique="SMT (strings) encoding regenerated from Rust and TypeScript source, per-shape queries, solver portfolio, native replay on both implementations"),
+
+ "C32": dict(engine="K", category="other",
+   text="Bounded model checking (CBMC) of the real #[derive(ResolvePosition)] expansions on the real iso-literal AST types: for one hand-built client field declaration whose spans are all symbolic (constrained only by the parser's nesting invariant) and every cursor offset, resolve() returns the innermost node containing the cursor, identified by address, with the chain of enclosing nodes as parents. The four existing tests use a toy tree; this exercises the generated code for the production types.",
+   design_ref="DESIGN.md section 4 C32",
+   note="Trusted: Kani/CBMC; one AST shape (depth 2, 2 selections, 1 variable); spans <= 1000; touching sibling spans excluded; other declaration kinds, arguments and directives outside the bound.",
+   technique="bounded model checking (Kani/CBMC SAT) of macro-generated Rust with symbolic spans"),
 }
 
 NA_COMMON = "whole-compiler behaviour: needs IsographDatabase (#[memo] over TypeId hashing), std HashMap, file system and format!-built text, none of which Kani/CBMC can decide here (DESIGN.md section 2, probes P2/P4/P5/P8/P9)"
 NOT_APPLICABLE = {p: "not yet built in this revision (see DESIGN.md)" for p in
-  ["C01","C02","C03","C04","C05","C07","C16","C24","C28","C31","C32"]}
+  ["C01","C02","C03","C04","C05","C07","C16","C24","C28","C31"]}
 NOT_APPLICABLE.update({
  "C08": NA_COMMON,
  "C09": "observable is the JS-evaluated artifact text of a whole compile validated by a GraphQL implementation; printers are format!-based and need a real compile's merged selection map",
